@@ -238,10 +238,10 @@ def run(ctx) -> None:
             if isinstance(leaf, ast.Compare) and isinstance(leaf.ops[0], (ast.In, ast.NotIn)) and isinstance(leaf.left, ast.Constant) and isinstance(leaf.left.value, bytes):
                 return leaf.left.value.decode(), isinstance(leaf.ops[0], ast.In)
             raise AnalysisError(f"C19/R4: section test leaf not enumerated: {unparse(leaf)}")
-        sec = BF.true()
-        for a in sec_atoms:
-            tree = inline(ast.parse(a, mode="eval").body)
-            sec = sec & shapes.bool_expr_bf(tree, classify)
+        # the section test as the path condition states it (atoms may be the operands of a short-circuit test or one
+        # boolean local): each atom is replaced by what it means in terms of the byte strings searched for
+        meaning = {a: shapes.bool_expr_bf(inline(ast.parse(a, mode="eval").body), classify) for a in sec_atoms}
+        sec = r.exists(ex_atom[0]).project(sec_atoms).compose(meaning) if sec_atoms else BF.true()
         want_sec = (BF.var("bumpver]") | BF.var("pycalver]")) & BF.var("current_version")
         ctx.check("R4", r.implies(BF.var(ex_atom[0])) and sec.equiv(want_sec),
                   "first pass returns the first existing candidate holding a bumpver/pycalver section and current_version",
